@@ -49,7 +49,9 @@ class BoolOperation(object):
             copy_future_exception(f, self.out)
 
         for to_cancel in cancel_futures:
-            to_cancel.cancel()
+            if to_cancel.cancel() and to_cancel is self.out:
+                # wake anyone blocked in wait() / as_completed() on the output
+                self.out.set_running_or_notify_cancel()
 
 
 class OrOperation(BoolOperation):
